@@ -161,6 +161,7 @@ def _worker(args):
             cases.econ_checks(cf, P, trace["init"], st, scn["id"])
             evcases.event_checks(cf, P, trace, st, scn["id"])
             info["steps_checked"].append(st["t"])
+        evcases.register_checks(cf, P, trace, scn["id"])
     return idx, trace, cf, info
 
 
